@@ -197,12 +197,14 @@ func (ldb *LiveDB) Query(ctx context.Context, result interface{}, filter sqlgen.
 // 2. Some rare operations are infrequent and its better to have no index and instead perform full table scans
 //    when that query is run.
 func (ldb *LiveDB) FullScanQuery(ctx context.Context, result interface{}, filter sqlgen.Filter, options *sqlgen.SelectOptions) error {
-	if options == nil {
-		options = &sqlgen.SelectOptions{}
+	// Leave the caller's options as they are.
+	fullScan := sqlgen.SelectOptions{}
+	if options != nil {
+		fullScan = *options
 	}
-	options.AllowNoIndex = true
+	fullScan.AllowNoIndex = true
 
-	return ldb.Query(ctx, result, filter, options)
+	return ldb.Query(ctx, result, filter, &fullScan)
 }
 
 // QueryRow fetches a single row from the database and will invalidate ctx when
